@@ -48,5 +48,13 @@ def search(ctx, deep=False):
         if not (np.allclose(f, rf, atol=1e-8 * (1 + M)) and np.allclose(e, re, atol=1e-8 * (1 + M))):
             viol.append({"key": "krige-vs-definition", "what": "kriging kernel differs from cond·M·v / vᵀMv",
                          "case": dict(mat=mat.tolist(), vecs=vecs.tolist(), cond=cond.tolist())})
+    sweep = ""
+    if not ctx.quick or deep:
+        # the property's 'serial and OpenMP builds of the current sources': rebuild the tree's generated C with gcc (serial and
+        # -fopenmp) in a scratch directory, compare bit for bit with the tree's .so for every thread count
+        ev_s, v_s, info = kernels.thread_sweep(ctx, 6 if ctx.quick else 25)
+        ev += ev_s
+        viol = v_s + viol
+        sweep = f"; rebuild of the generated C ({info.get('rebuild')}): {ev_s} runs of all nine entry points, tree .so == serial rebuild == OpenMP rebuild for num_threads in (None,1,2,3,4,8,16), sizes up to 3000 points"
     return {"evaluations": ev, "violations": viol[:5],
-            "summary": "summate / krige kernels vs numpy evaluation of the defining sums; num_threads in {None,1,2,3,4,8,16} bit-identical"}
+            "summary": "summate / krige kernels vs numpy evaluation of the defining sums; num_threads in {None,1,2,3,4,8,16} bit-identical" + sweep}
